@@ -17,6 +17,9 @@ Decided:
      allow_failure (the status rule is shared with C10.R2);
   R7 clean-up: every validated challenge's hook data is handed to call_challenge_hooks_clean with only is_clean_hook
      changed, after the authorization poll succeeded.
+  Evaluation-first: R3 (challenge -> hook types, from call_challenge_hooks per challenge), R4 (tls-alpn-01 extension text for a sample
+  32-byte digest), R5 (identifier lookup table), R6 (reverse-DNS name of eight sample addresses, incl. leading zero nibbles), R8 (JWK
+  thumbprint members per key type). W1: what the derived Deserialize impls accept for authorizations/challenges (props/wire_shape.py).
 """
 import re
 
@@ -29,13 +32,15 @@ from . import crypto_tables as ct
 LEVEL = "other"
 TECHNIQUE = ("must-pass-through on request_certificate's CFG (hooks before the challenge POST, status gates), evaluation of the "
              "proof / file-name / hook-type / challenge-equality functions by abstract interpretation over every variant, "
-             "information-flow rule on the wildcard flag, provenance of the hook data fields")
+             "information-flow rule on the wildcard flag, provenance of the hook data fields"
+             '; evaluation of call_challenge_hooks / get_proof / get_tls_alpn_name / jwk_public_key_thumbprint on sample inputs; derived-serde shape tables')
 LEVEL_TEXT = ("Decides for all challenge types, statuses and identifier sets the structure RFC 8555 section 8 / RFC 8737 require: "
               "ordering of hooks and the ready POST, skip/refuse by status, which hook types and which proof formula per "
               "challenge (whole tables), the wildcard flag reaching the identifier selection, and the clean-up pairing. "
               "Concrete proof bytes for a concrete key are OpenSSL results and not decided.")
 LEVEL_NOTE = ("Not decided: proof bytes for concrete keys, what a CA offers. Trusted: rustc MIR, extractor, abstract interpreter, "
-              "format! template decoding of this toolchain.")
+              "format! template decoding of this toolchain."
+              ' Evaluated rules are (sample-based: evaluation on the listed sample family is not a proof for all inputs; the structural rule is the fallback when the interpreter cannot run the code)')
 
 RC = "acmed::acme_proto::request_certificate"
 CERT = "acmed::certificate::Certificate"
